@@ -9,7 +9,8 @@ from types import SimpleNamespace
 
 import z3
 
-from engine.symreal.core import PathAbort, SymReal, ctx, explore, lift, qval
+from engine.symreal.core import PathAbort, SymReal, ctx, decide, explore, lift, qval
+from engine.symreal.shim import math_names_installed
 
 from .common import Part, Q, Report, dyadic_box, finish, pmap, solve, tier_timeout_ms, write_replay
 from .oblig import env_from_model
@@ -25,24 +26,37 @@ FsP = z3.Function("FsP", R, R, R, R, R)
 SENSOR_ID = {"a": 1, "b": 2}
 
 
+def _SC(state, covariance):
+    """The stand-ins return what the real filter returns: python.StateAndCovariance (a namedtuple)."""
+    from formak import python
+
+    return python.StateAndCovariance(state, covariance)
+
+
 class UFFilter:
     """Stand-in filter whose operations are uninterpreted functions: the returned term *is* the call trace."""
 
-    def __init__(self, max_dt, control_size):
+    def __init__(self, max_dt, control_size, reject=False):
         self.config = SimpleNamespace(max_dt_sec=max_dt)
         self.control_size = control_size
         self.calls = 0
+        self.reject = reject
+        self.n_updates = 0
 
     def process_model(self, dt, state, covariance, control=None):
         self.calls += 1
         c = lift(control) if control is not None else z3.RealVal(0)
         d = lift(dt)
-        return FpS(state, covariance, d, c), FpP(state, covariance, d, c)
+        return _SC(FpS(state, covariance, d, c), FpP(state, covariance, d, c))
 
     def sensor_model(self, state, covariance, *, sensor_key, sensor_reading):
         self.calls += 1
+        i = self.n_updates
+        self.n_updates += 1
+        if self.reject and decide(z3.Bool(f"reject{i}")):
+            return _SC(state, covariance)  # a discarded reading: the very same objects come back (as in the real filter)
         sid = z3.RealVal(SENSOR_ID[sensor_key])
-        return FsS(state, covariance, sid, sensor_reading), FsP(state, covariance, sid, sensor_reading)
+        return _SC(FsS(state, covariance, sid, sensor_reading), FsP(state, covariance, sid, sensor_reading))
 
     def make_reading(self, key, **kw):
         (v,) = kw.values()
@@ -66,12 +80,15 @@ def ref_propagate(t, s, P, target, max_dt, control):
     return s, P
 
 
-def ref_tick(held, readings, out, max_dt, control):
+def ref_tick(held, readings, out, max_dt, control, reject_from=None):
     t, s, P = held
-    for ts, key, val in readings:
+    for j, (ts, key, val) in enumerate(readings):
         s, P = ref_propagate(t, s, P, ts, max_dt, control)
         sid = z3.RealVal(SENSOR_ID[key])
-        s, P = FsS(s, P, sid, val), FsP(s, P, sid, val)
+        if reject_from is not None and decide(z3.Bool(f"reject{reject_from + j}")):
+            pass  # discarded reading: estimate unchanged, but it is still held at the reading's timestamp
+        else:
+            s, P = FsS(s, P, sid, val), FsP(s, P, sid, val)
         t = ts
     rs, rP = ref_propagate(t, s, P, out, max_dt, control)
     return (rs, rP), (t, s, P)
@@ -86,10 +103,10 @@ class TraceFilter:
         self.control_size = control_size
 
     def process_model(self, dt, state, covariance, control=None):
-        return state + (("P", float(dt)),), covariance + (("P", float(dt)),)
+        return _SC(state + (("P", float(dt)),), covariance + (("P", float(dt)),))
 
     def sensor_model(self, state, covariance, *, sensor_key, sensor_reading):
-        return state + (("S", sensor_key, sensor_reading),), covariance + (("S", sensor_key, sensor_reading),)
+        return _SC(state + (("S", sensor_key, sensor_reading),), covariance + (("S", sensor_key, sensor_reading),))
 
     def make_reading(self, key, **kw):
         (v,) = kw.values()
@@ -164,6 +181,7 @@ def py_task(keys, K, with_control, tier, seed):
     control = SymReal(u) if with_control else None
 
     def harness():
+      with math_names_installed(runtime):
         f = UFFilter(MAX_DT, 1 if with_control else 0)
         mf = runtime.ManagedFilter(f, SymReal(t0), s0, P0)
         rds = [runtime.StampedReading(SymReal(ts[i]), keys[i], v=SymReal(vals[i])) for i in range(r)]
@@ -247,6 +265,165 @@ def py_task(keys, K, with_control, tier, seed):
     return part.d
 
 
+def py_task_sequence(ticks, K, with_control, tier, seed, reject=False):
+    """A sequence of ticks on ONE managed filter (history dimension): every tick's return value and the held triple
+    after it equal the reference fold started from the held triple after the previous tick. ticks: tuple of key tuples."""
+    part = Part()
+    part.program("runtime.ManagedFilter")
+    part.fn("runtime.ManagedFilter.tick", "runtime.ManagedFilter._process_model")
+    from formak import runtime
+
+    t0 = z3.Real("t0")
+    s0, P0 = z3.Real("s0"), z3.Real("P0")
+    outs = [z3.Real(f"out_{j}") for j in range(len(ticks))]
+    us = [z3.Real(f"u_{j}") for j in range(len(ticks))]
+    tss = [[z3.Real(f"ts_{j}_{i}") for i in range(len(keys))] for j, keys in enumerate(ticks)]
+    vss = [[z3.Real(f"v_{j}_{i}") for i in range(len(keys))] for j, keys in enumerate(ticks)]
+    allt = [t0] + outs + [t for row in tss for t in row]
+    assumes = [z3.And(t >= -100, t <= 100) for t in allt]
+    label = "|".join("".join(k_) or "-" for k_ in ticks)
+    key_base = f"py/sequence={label}/K={K}/control={int(with_control)}/reject={int(reject)}"
+
+    def harness():
+        with math_names_installed(runtime):
+            f = UFFilter(MAX_DT, 1 if with_control else 0, reject=reject)
+            mf = runtime.ManagedFilter(f, SymReal(t0), s0, P0)
+            held_ref = (t0, s0, P0)
+            results = []
+            nupd = 0
+            for j, keys in enumerate(ticks):
+                control = SymReal(us[j]) if with_control else None
+                rds = [runtime.StampedReading(SymReal(tss[j][i]), keys[i], v=SymReal(vss[j][i])) for i in range(len(keys))]
+                res = mf.tick(SymReal(outs[j]), control=control, readings=rds if keys else None)
+                held = (lift(mf.current_time), mf.state, mf.covariance)
+                ref, held_ref = ref_tick(held_ref, [(tss[j][i], keys[i], vss[j][i]) for i in range(len(keys))], outs[j], MAX_DT, control, reject_from=(nupd if reject else None))
+                nupd += len(keys)
+                results.append((res, held, ref, held_ref))
+            return results
+
+    leaves = explore(harness, assumes=assumes, kmax=K, max_paths=60000, prune_timeout_ms=2000)
+    part.leaves(leaves)
+    tmo = tier_timeout_ms(tier)
+    exc = [l for l in leaves if l.status == "exc"]
+    if exc:
+        # the real code raised on a feasible symbolic path
+        q = solve(assumes + exc[0].pc, 5000)
+        allvars = {v.decl().name(): v for v in allt + [x for row in vss for x in row] + us}
+        e = env_from_model(q.model, allvars) if q.status == "sat" else {n_: 0.0 for n_ in allvars}
+        rejects = [bool((q.model or {}).get(f"reject{i}", False)) for i in range(sum(len(k_) for k_ in ticks))]
+        try:
+            float_sequence_differs(e, ticks, with_control, rejects if reject else None)
+            part.harness_error(f"{key_base}: symbolic path raised {exc[0]} but the concrete run does not")
+        except Exception as ex:
+            path = write_replay(PID, {"key": "py/tick/raises", "info": {"kind": "py-seq", "ticks": [list(k_) for k_ in ticks], "with_control": with_control, "rejects": rejects if reject else None}, "inputs": e, "exception": f"{type(ex).__name__}: {ex}"})
+            part.violation("py/tick/raises", f"tick raises {type(ex).__name__}: {str(ex)[:120]} for the sequence {label} at {e}", path)
+        return part.d
+    ok = [l for l in leaves if l.status == "ok"]
+    reported = False
+    n_unsat = n_tot = 0
+    for li, l in enumerate(ok):
+        pc = assumes + l.pc
+        for j, (res, held, ref, ref_held) in enumerate(l.value):
+            claims = [(f"tick{j} returned state", res.state, ref[0]), (f"tick{j} returned covariance", res.covariance, ref[1]), (f"tick{j} held time", held[0], ref_held[0]), (f"tick{j} held state", held[1], ref_held[1]), (f"tick{j} held covariance", held[2], ref_held[2])]
+            for nm, a, b in claims:
+                n_tot += 1
+                q = Q("unsat", None, 0.0, "") if a.eq(b) else solve(pc + [a != b], tmo)
+                part.d["queries"][q.status] += 1
+                part.d["solver_s"] += q.secs
+                if q.status == "unsat":
+                    n_unsat += 1
+                elif q.status == "unknown":
+                    part.d["inconclusive"].append(f"{key_base}/leaf{li}: {nm}")
+                elif not reported:
+                    vars_ = {v.decl().name(): v for v in allt + [x for row in vss for x in row] + us}
+                    cands = []
+                    q2 = solve(pc + [a != b] + dyadic_box(vars_, -4, 4, 64), 10000)
+                    if q2.status == "sat":
+                        cands.append(env_from_model(q2.model, vars_))
+                    cands.append(env_from_model(q.model, vars_))
+                    rejects = [bool(q.model.get(f"reject{i}", False)) for i in range(sum(len(k_) for k_ in ticks))]
+                    for e in cands:
+                        part.d["witnesses"] += 1
+                        try:
+                            differs, got, want = float_sequence_differs(e, ticks, with_control, rejects if reject else None)
+                        except Exception as ex:
+                            differs, got, want = True, f"{type(ex).__name__}: {ex}", None
+                        if differs:
+                            key = f"py/tick-sequence/{label}"
+                            path = write_replay(PID, {"key": key, "info": {"kind": "py-seq", "ticks": [list(k_) for k_ in ticks], "with_control": with_control, "rejects": rejects if reject else None}, "inputs": e, "got": got, "want": want, "clause": nm})
+                            part.violation(key, f"Python tick sequence {label} differs from the fold of readings ({nm}) at {e}", path)
+                            reported = True
+                            break
+                    else:
+                        part.d["inconclusive"].append(f"{key_base}/leaf{li}: {nm} sat, not reproduced in floats")
+    part.d["obligations"].append({"name": f"{key_base}: 5 clauses x {len(ticks)} ticks x {len(ok)} leaves", "status": "unsat" if n_unsat == n_tot else "mixed", "s": 0})
+    if not ok:
+        part.harness_error(f"{key_base}: no complete leaf")
+    part.sample({"impl": "python", "tick_sequence": [list(k_) for k_ in ticks], "K": K, "leaves": len(ok), "reject_variant": reject})
+    return part.d
+
+
+class _RejectingTrace(TraceFilter):
+    def __init__(self, max_dt, control_size, rejects):
+        super().__init__(max_dt, control_size)
+        self.rejects = list(rejects or [])
+        self.n = 0
+
+    def process_model(self, dt, state, covariance, control=None):
+        tag = ("P", float(dt), float(control) if control is not None else 0.0)
+        return _SC(state + (tag,), covariance + (tag,))
+
+    def sensor_model(self, state, covariance, *, sensor_key, sensor_reading):
+        i = self.n
+        self.n += 1
+        if i < len(self.rejects) and self.rejects[i]:
+            return _SC(state, covariance)
+        return super().sensor_model(state, covariance, sensor_key=sensor_key, sensor_reading=sensor_reading)
+
+
+def float_sequence_differs(e, ticks, with_control, rejects):
+    """Real ticks on floats with a tracing filter against the float reference fold (control recorded in each step)."""
+    from formak import runtime
+
+    f = _RejectingTrace(MAX_DT, 1 if with_control else 0, rejects)
+    mf = runtime.ManagedFilter(f, float(e["t0"]), (), ())
+    t, tr = float(e["t0"]), ()
+    n = 0
+    for j, keys in enumerate(ticks):
+        ctl = float(e.get(f"u_{j}", 0.5)) if with_control else None
+        rds = [runtime.StampedReading(float(e[f"ts_{j}_{i}"]), k_, v=float(e[f"v_{j}_{i}"])) for i, k_ in enumerate(keys)]
+        res = mf.tick(float(e[f"out_{j}"]), control=ctl, readings=rds if keys else None)
+
+        def prop(t_, tr_, target):
+            out = float_ref_propagate(t_, tr_, target, MAX_DT)
+            # tag the new steps with the control of this tick
+            return tr_ + tuple(("P", st[1], ctl if ctl is not None else 0.0) for st in out[len(tr_):])
+
+        for i, k_ in enumerate(keys):
+            tr = prop(t, tr, float(e[f"ts_{j}_{i}"]))
+            if not (rejects and n < len(rejects) and rejects[n]):
+                tr = tr + (("S", k_, float(e[f"v_{j}_{i}"])),)
+            n += 1
+            t = float(e[f"ts_{j}_{i}"])
+        want_ret = prop(t, tr, float(e[f"out_{j}"]))
+        if _tr_differ(res.state, want_ret) or _tr_differ(mf.state, tr) or abs(mf.current_time - t) > 1e-12:
+            return True, [res.state, mf.current_time, mf.state], [want_ret, t, tr]
+    return False, None, None
+
+
+def _tr_differ(a, b):
+    if len(a) != len(b):
+        return True
+    for x, y in zip(a, b):
+        if x[0] != y[0]:
+            return True
+        if x[0] == "P" and (abs(x[1] - y[1]) > 1e-7 or abs(x[2] - y[2]) > 1e-12):
+            return True
+        if x[0] == "S" and (x[1] != y[1] or abs(x[2] - y[2]) > 1e-12):
+            return True
+    return False
+
+
 def py_task_control_required(tier, seed):
     """control=None with control_size>0 raises TypeError on every path."""
     part = Part()
@@ -286,6 +463,12 @@ def run(tier, seed):
         combos = [((), 3, False), ((), 3, True), (("a",), 2, False), (("a",), 2, True), (("a", "b"), 2, False), (("b", "a"), 1, True), (("a", "a"), 1, False), (("a", "b", "a"), 1, False)]
     for keys, K, wc in combos:
         tasks.append((py_task, (keys, K, wc, tier, seed)))
+    # history dimension: sequences of ticks on one managed filter; and a filter that may discard readings
+    seqs = [(((), ()), 1, True, False), ((("a",), ()), 1, False, False), ((("a",),), 1, False, True)]
+    if tier != "quick":
+        seqs += [(((), ("a",), ()), 1, True, False), ((("a", "b"),), 1, True, True), ((("a",), ("b",)), 1, False, True), (((), ()), 2, True, False)]
+    for ticks, K, wc, rej in seqs:
+        tasks.append((py_task_sequence, (ticks, K, wc, tier, seed, rej)))
     try:
         from . import c11_cpp
 
@@ -309,6 +492,12 @@ def replay(path):
     with open(path) as f:
         r = json.load(f)
     info = r["info"]
+    if info["kind"] == "py-seq":
+        differs, got, want = float_sequence_differs(r["inputs"], [tuple(k_) for k_ in info["ticks"]], info["with_control"], info.get("rejects"))
+        print("got ", got)
+        print("want", want)
+        print("REPRODUCED" if differs else "not reproduced")
+        return 1 if differs else 0
     if info["kind"] == "py":
         got, want = float_run(r["inputs"], info["keys"], info["with_control"])
         print("got ", got)
